@@ -34,3 +34,56 @@ FAIL = {
     'f_stl_unknown': (True, ["stl.startup\nstl.no_such_macro 1\nstl.loop\n"]),
     'f_stl_syntax': (True, ["stl.startup\n;;\n"]),
 }
+
+
+# a private "standard library" used by C13's library mode: the history process points the parser's cacheable
+# directory at a directory holding these files, so they take the place of the packaged stl in the prefix cache and
+# exercise constructs the packaged stl does not contain (rep counts from global labels, constants, nested reps).
+LIB = {
+    'la.fj': """ns lv {
+    def stub {
+        ;
+    }
+    def stubs < table_start, table_end {
+        rep((table_end - table_start) / (2*w), i) .stub
+    }
+    def nops n {
+        rep(n, i) .stub
+    }
+    def halt @ here {
+      here:
+        ;here
+    }
+    def pick a, b, c {
+        ;(a > b) ? c : (c + 2*w)
+    }
+}
+""",
+    'lb.fj': """LVC = 3
+ns lv2 {
+    def twice n {
+        lv.nops n
+        lv.nops n
+    }
+    def wf a, v {
+        wflip a, v
+    }
+    def grid n {
+        rep(n, i) lv.nops i
+    }
+}
+""",
+}
+
+LIB_EDITS = {
+    'la.fj': [('        ;here\n', '        ;here\n        ;here\n'), ('rep(n, i) .stub', 'rep(n + 1, i) .stub')],
+    'lb.fj': [('LVC = 3', 'LVC = 4'), ('        lv.nops n\n        lv.nops n\n', '        lv.nops n\n')],
+}
+
+
+def lib_program(k, k2, use):
+    entries = '\n'.join('  ;0' for _ in range(k))
+    body = {'stubs': '  lv.stubs\n', 'twice': '  lv2.twice LVC\n', 'grid': f'  lv2.grid {k2 + 1}\n',
+            'pick': f'  lv.pick {k}, {k2}, main\n', 'wf': '  lv2.wf table_start, 5\n'}
+    return f"  ;main\ntable_start:\n{entries}\ntable_end:\nmain:\n" + ''.join(body[u] for u in use) + \
+        f"  lv.nops {k2}\n  lv.halt\n"
